@@ -278,6 +278,72 @@ fn abandoned_pull_ack_scenario() -> ScenFn {
     })
 }
 
+/// Two control messages sent back to back on one StreamingPull: they take effect in the order in which they were sent
+/// (the second one's deadline for X is the one that counts), whatever the first one carries besides.
+fn stream_control_order_scenario() -> ScenFn {
+    scen!([] |cx| {
+        let a = cx.api.clone();
+        must!(cx, "setup:create-topic", { let a = a.clone(); async move { a.create_topic(T0).await } });
+        must!(cx, "setup:create-sub", { let a = a.clone(); async move { a.create_sub(S0, T0, 10, None).await } });
+        must!(cx, "setup:publish", { let a = a.clone(); async move { a.publish(T0, vec![(b"x".to_vec(), vec![])]).await } });
+        let (s1, s2) = [(20, 60), (60, 20), (0, 30), (30, 40)][cx.choose("deadlines", 4)];
+        let first_has_ack = cx.choose("first-message-also-acks", 2) == 1;
+        let seen: std::sync::Arc<std::sync::Mutex<Vec<(i64, String)>>> = Default::default();
+        let sent_at: std::sync::Arc<std::sync::Mutex<Option<i64>>> = Default::default();
+        let (seen2, sent2, cx2, a2) = (seen.clone(), sent_at.clone(), cx.clone(), a.clone());
+        let h = cx.spawn("client:00-stream", async move {
+            let (tx, r) = a2.streaming_pull(first_stream_req(S0, 10)).await;
+            let mut st = match r { Ok(s) => s, Err(_) => return };
+            let first = match st.message().await { Ok(Some(m)) if !m.received_messages.is_empty() => to_rm(&m.received_messages[0]), _ => return };
+            seen2.lock().unwrap().push((cx2.now_ms(), first.msg_id.clone()));
+            let m1 = deltio::pubsub_proto::StreamingPullRequest { ack_ids: if first_has_ack { vec!["9999".into()] } else { vec![] }, modify_deadline_ack_ids: vec![first.ack_id.clone()], modify_deadline_seconds: vec![s1], ..Default::default() };
+            let m2 = deltio::pubsub_proto::StreamingPullRequest { modify_deadline_ack_ids: vec![first.ack_id.clone()], modify_deadline_seconds: vec![s2], ..Default::default() };
+            let _ = tx.send(m1).await;
+            let _ = tx.send(m2).await;
+            *sent2.lock().unwrap() = Some(cx2.now_ms());
+            while let Ok(Some(m)) = st.message().await {
+                for r in &m.received_messages {
+                    seen2.lock().unwrap().push((cx2.now_ms(), to_rm(r).msg_id));
+                }
+            }
+            drop(tx);
+        });
+        tryv!(cx.quiesce().await);
+        let t_sent = match *sent_at.lock().unwrap() { Some(t) => t, None => return ScenarioOut::viol("stream-ctl-order/setup", "the stream did not get its message".to_string()) };
+        // s1 = 0 is a nack: the stream takes the message again at once and the second message then names a stale id
+        let expect_s = if s1 == 0 { None } else { Some(s2 as i64) };
+        {
+            let was = cx.freeze(true);
+            let mut q = Ok(());
+            for _ in 0..70 {
+                if q.is_ok() {
+                    q = cx.advance_ms(1_000).await;
+                }
+            }
+            cx.freeze(was);
+            tryv!(q);
+        }
+        let seen = seen.lock().unwrap().clone();
+        h.abort();
+        tryv!(cx.quiesce().await);
+        if let Some(s) = expect_s {
+            // the first redelivery after the two messages must not come before t_sent + s (nor more than ~1 s after it)
+            let again: Vec<i64> = seen.iter().skip(1).map(|(t, _)| *t).collect();
+            match again.first() {
+                Some(t) if *t < t_sent + s * 1000 => return ScenarioOut::viol("stream-ctl-order/earlier-extension-won", format!("control messages [extend to {} s{}] then [extend to {} s] sent back to back at {} ms: the message came back at {} ms, i.e. {} ms after the messages, although the last one set {} s", s1, if first_has_ack { " + an ack" } else { "" }, s2, t_sent, t, t - t_sent, s)),
+                Some(t) if *t > t_sent + s * 1000 + 1_200 => return ScenarioOut::viol("stream-ctl-order/later-than-the-last-extension", format!("the message came back {} ms after the control messages although the last one set {} s", t - t_sent, s)),
+                None if t_sent + s * 1000 + 1_200 < cx.now_ms() => return ScenarioOut::viol("stream-ctl-order/never-redelivered", format!("the message did not come back within 70 s although the last control message set {} s", s)),
+                _ => {}
+            }
+        }
+        ScenarioOut::ok(format!("s1={} s2={} ack={} deliveries={}", s1, s2, first_has_ack, seen.len().min(9)))
+    })
+}
+
+pub fn stream_control_order_unit(thorough: bool) -> Unit {
+    explore_unit("sched/stream-control-order", "two StreamingPull control messages sent back to back for one delivery (extend to s1, optionally with an ack; then extend to s2): the second one counts, the redelivery comes s2 seconds later (schedules explored)", Bounds::new(if thorough { 3 } else { 2 }), ExecCfg::default(), stream_control_order_scenario())
+}
+
 pub fn abandoned_pull_ack_unit(thorough: bool) -> Unit {
     explore_unit("crash/abandoned-pull-then-ack", "a Pull / blocking Pull / StreamingPull whose caller disappears k scheduler steps after its first poll (every k); a second consumer then pulls and acknowledges whatever is available at 1 s, 5 s, 10.1 s, ... 43 s: nothing acknowledged comes back, every message arrives, nothing is left over", Bounds::new(if thorough { 2 } else { 1 }), ExecCfg::default(), abandoned_pull_ack_scenario())
 }
@@ -306,6 +372,7 @@ pub fn units(thorough: bool) -> Vec<Unit> {
     }
     v.push(explore_unit("crash/abandoned-pull", "a Pull / blocking Pull / StreamingPull whose caller disappears after k polls (every k), then pulls at 5 s, 10.1 s, 15.2 s, 21 s, 26 s: lease oracle over what they receive", Bounds::new(if thorough { 2 } else { 1 }), ExecCfg::default(), abandoned_pull_scenario()));
     v.push(abandoned_pull_ack_unit(thorough));
+    v.push(stream_control_order_unit(thorough));
     v.push(explore_unit(
         "sched/push+pull",
         "push dispatch (slow / failing endpoint answers enumerated) and a polling pull consumer on the same subscription",
